@@ -8,13 +8,64 @@ from lib import Result, RMODES, OMODES, e_fmt, e_list, e_dy, model_call, run_sha
 
 RULE = ('stratified: (A) exhaustive quarter-LSB sweep over 3x the range of every format with n_word<=3 (quick) / <=6 (thorough), '
         'n_frac -8..n_word+8, all 10 mode pairs, as arrays by rotating routes; (B) random formats up to 52 bits, boundary-biased '
-        'values, every carrier that can hold them exactly, every route; (C) huge finite floats under saturate; (D) floats and integers with |v*2^n_frac| in [2^50, 2^62) (beyond the integer precision of float64) under both overflow modes, small and random words; (E) float arrays mixing an element of magnitude >= 2^64 with fractional ones under saturate. A case is non-trivial '
+        'values, every carrier that can hold them exactly, every route; (C) huge finite floats under saturate; (D) floats and integers with |v*2^n_frac| in [2^50, 2^62) (beyond the integer precision of float64) under both overflow modes, small and random words; (E) float arrays mixing an element of magnitude >= 2^64 with fractional ones under saturate; (X) complex scalars, lists, tuples and complex128 arrays (each component, flags, read-back, dtype). A case is non-trivial '
         'when some element is changed by quantization (rounded or overflowed); distinct by hash of format, modes, carrier, route, values.')
 ASSUMPTIONS = ['carrier glue (np.array dtype inference on lists/tuples, float(str)) is exercised but has no Gallina counterpart']
 
 from storelib import check_store_cases, spec_list_request
 def check_cases(cases, res, stratum, huge=False, keep_array=False):
     return check_store_cases(cases, res, stratum, 'C01', huge=huge, keep_array=keep_array)
+
+def run_complex_cases(cases, res, stratum):
+    """complex inputs: each component must be quantized on its own; flags are those of either part"""
+    from lib import Reader, outcome, e_f64
+    fx = lib.impl(); import numpy as np
+    pend = []; reqs = []
+    for c in cases:
+        s, nw, nf = c['s'], c['nw'], c['nf']; re, im = c['re'], c['im']
+        zs = [complex(a, b) for a, b in zip(re, im)]
+        val = zs[0] if c['carrier'] == 'pycomplex' else (list(zs) if c['carrier'] == 'list' else (tuple(zs) if c['carrier'] == 'tuple' else np.array(zs, dtype=np.complex128)))
+        kw = dict(rounding=c['r'], overflow=c['o'])
+        try:
+            if c['route'] == 'ctor': x = fx.Fxp(val, s, nw, nf, **kw)
+            else:
+                x = fx.Fxp(None, s, nw, nf, **kw)
+                (x if c['route'] == 'call' else x.set_val)(val)
+            v = np.asarray(x.val).reshape(-1)
+            obs = {'re': [Fraction(float(t.real)) for t in v], 'im': [Fraction(float(t.imag)) for t in v], 'st': lib.status3(x),
+                   'get': [(Fraction(float(t.real)), Fraction(float(t.imag))) for t in np.asarray(x.get_val()).reshape(-1)], 'dtype': x.dtype,
+                   'parts': ([Fraction(float(t)) for t in np.asarray(x.real).reshape(-1)], [Fraction(float(t)) for t in np.asarray(x.imag).reshape(-1)])}
+        except Exception as e:
+            res.fail(c, 'C01: storing a complex value raised %s' % lib.exc_name(e), got=str(e)[:200]); continue
+        pend.append((c, obs))
+        f = e_fmt(s, nw, nf); ro = [RMODES.index(c['r']), OMODES.index(c['o'])]
+        reqs.append([4] + f + ro + e_list([Fraction(t) for t in re], e_dy))
+        reqs.append([4] + f + ro + e_list([Fraction(t) for t in im], e_dy))
+        reqs.append([11] + f + ro + e_list(re, e_f64) + e_list(im, e_f64))
+    outs = model_call(reqs)
+    for i, (c, obs) in enumerate(pend):
+        nf = c['nf']
+        r1 = Reader(outs[3 * i]); wre = r1.lst(r1.z); f1 = (r1.b(), r1.b(), r1.b())
+        r2 = Reader(outs[3 * i + 1]); wim = r2.lst(r2.z); f2 = (r2.b(), r2.b(), r2.b())
+        want_st = tuple(a or b for a, b in zip(f1, f2))
+        exact = [Fraction(t) for t in c['re']] + [Fraction(t) for t in c['im']]
+        res.count(stratum, key=repr(c), nontrivial=any(Fraction(cd) / Fraction(2) ** nf != v for cd, v in zip(wre + wim, exact)), n=2 * len(wre))
+        res.sample(c)
+        if obs['re'] != wre or obs['im'] != wim:
+            res.fail(c, 'C01: a component of a complex value is not stored as OVERFLOW(ROUND(component*2^n_frac))', expected=(wre, wim), got=([str(t) for t in obs['re']], [str(t) for t in obs['im']])); continue
+        if obs['st'] != want_st:
+            res.fail(c, 'C01: status flags after a complex store are not those of either component', expected=want_st, got=obs['st']); continue
+        back = [(Fraction(a) / Fraction(2) ** nf, Fraction(b) / Fraction(2) ** nf) for a, b in zip(wre, wim)]
+        if obs['get'] != back or obs['parts'] != ([b[0] for b in back], [b[1] for b in back]):
+            res.fail(c, 'C01: complex value read back (get_val / .real / .imag) is not code*2^-n_frac per component', expected=[(str(a), str(b)) for a, b in back], got=[(str(a), str(b)) for a, b in obs['get']]); continue
+        if not obs['dtype'].endswith('-complex'):
+            res.fail(c, 'C01: an object holding complex values does not report a complex dtype', expected='...-complex', got=obs['dtype']); continue
+        kind, rd = outcome(outs[3 * i + 2])
+        if kind != 'ok':
+            res.fail(c, 'model set_val_complex is %s on an in-domain input' % kind); res.failures[-1]['no_input'] = True; continue
+        mre, mim = rd.lst(rd.z), rd.lst(rd.z); mst = (rd.b(), rd.b(), rd.b())
+        if (mre, mim, mst) != (wre, wim, want_st):
+            res.fail(c, 'model set_val_complex disagrees with the implementation although the Spec agrees', expected=(mre, mim, mst), got=(wre, wim, want_st)); res.failures[-1]['no_input'] = True
 
 def exhaustive_formats(tier):
     nwmax = 3 if tier == 'quick' else 6
@@ -91,6 +142,16 @@ def shard(shard, nshards, rng, tier, extra):
         cases.append({'s': s, 'nw': nw, 'nf': nf, 'r': rng.choice(RMODES), 'o': 'saturate', 'carrier': rng.choice(['arr:float64', 'list', 'tuple']),
                       'route': rng.choice(S.ROUTES[:3]), 'vals': vals})
     check_cases(cases, res, 'E:huge-mixed-with-fractional', keep_array=True)
+    # ---- (X) complex inputs: each component on its own
+    cases = []
+    for _ in range((800 if tier == 'quick' else 20000) // nshards):
+        s, nw, nf = S.random_format(rng)
+        k = rng.choice([1, 1, 2, 3])
+        re = [float(S.as_number(v)) for v in S.boundary_values(rng, s, nw, nf, k)]; im = [float(S.as_number(v)) for v in S.boundary_values(rng, s, nw, nf, k)]
+        if rng.random() < 0.2: im = [0.0] * k
+        carrier = 'pycomplex' if (k == 1 and rng.random() < 0.5) else rng.choice(['list', 'tuple', 'arr:complex128'])
+        cases.append({'s': s, 'nw': nw, 'nf': nf, 'r': rng.choice(RMODES), 'o': rng.choice(OMODES), 'carrier': carrier, 'route': rng.choice(['ctor', 'call', 'set_val']), 're': re, 'im': im})
+    run_complex_cases(cases, res, 'X:complex-components')
     if tier != 'quick' or True:
         res.exhaustive = True   # stratum A enumerates its finite set completely
     return res
@@ -104,5 +165,7 @@ def classify(fl):
 def replay(payload):
     c = payload['case']
     res = Result()
+    if 're' in c:
+        run_complex_cases([c], res, 'replay'); return {'holds': not res.failures, 'failures': res.failures}
     check_cases([c], res, 'replay', huge=any(abs(v) >= 2**53 for v in c['vals']))
     return {'holds': not res.failures, 'failures': res.failures}
